@@ -405,7 +405,8 @@ fn gen_c09(seed: u64, _index: u64, tier: Tier) -> ServerPlan {
             _ => {}
         }
         let mut m = MsgPlan {
-            at_ms: r.below(horizon + 1),
+            // (now and then a straggler after the five-minute cache-pruning task has run)
+            at_ms: if r.chance(0.01) { 300_000 + r.below(10_000) } else { r.below(horizon + 1) },
             proto: if tcp { "tcp".into() } else { "udp".into() },
             bytes_hex: hex(&bytes),
             prefix: None,
